@@ -10,7 +10,7 @@ import itertools
 from hypothesis import strategies as st
 
 from .. import gen, model
-from ..core import SubCheck
+from ..core import PropertyViolation, SubCheck
 from ..gen import F
 
 META = dict(
@@ -427,14 +427,24 @@ def run_simplify(case, ctx):
     ctx.label("nonsample_in_S", any(not model.is_sample(spec, s) for s in S))
     ctx.label("via:" + case["via"])
     ctx.label("defaults_omitted", not case["explicit"])
+    pending = None
     for k in case["ks"]:
         opts = decode_opts(k)
         for name, v in opts.items():
             ctx.label("opt:" + name + "=" + str(v)[0], v != DEFAULTS[name])
         ctx.label("opt:all_default", k == 0)
-        res = check_simplify(ctx, tskit, spec, tables, samples, opts, explicit=case["explicit"],
-                             via=case["via"], as_array=case["as_array"], record_provenance=case["prov"])
+        try:
+            res = check_simplify(ctx, tskit, spec, tables, samples, opts, explicit=case["explicit"],
+                                 via=case["via"], as_array=case["as_array"], record_provenance=case["prov"])
+        except PropertyViolation as e:
+            # an instance of the open finding must not hide the remaining option sets of the case
+            if classify(case, e) is None:
+                raise
+            pending = pending or e
+            continue
         ctx.nt((res["on"] < len(spec["nodes"]) and "multi_tree" in labs) or k != 0 or internal)
+    if pending is not None:
+        raise pending
 
 
 # ------------------------------------------------------------------ documented refusals
@@ -506,9 +516,9 @@ def _forests(n):
 def enum_small(tier, seed):
     """All forests on n nodes (time = id) x 1..2 intervals; one site per interval with one mutation
     on every node (ancestors first).  run_small loops over all sample subsets x 24 option sets."""
-    plan = [(1, 1), (1, 2), (2, 1), (2, 2), (3, 1), (3, 2), (4, 1)]
+    plan = [(1, 1), (2, 1), (2, 2), (3, 1), (3, 2), (4, 1), (4, 2)]
     if tier != "quick":
-        plan += [(4, 2), (5, 1)]
+        plan += [(5, 1)]
     for n, nint in plan:
         forests = _forests(n)
         bps = [0.0, 1.0, 2.0][: nint + 1]
@@ -529,19 +539,21 @@ def enum_small(tier, seed):
                     edges.append([bps[i], bps[j + 1], p, u, ""])
                     i = j + 1
             edges.sort(key=lambda e: (e[2], e[3], e[0]))
-            sites, muts = [], []
-            for i in range(nint):
-                sites.append([bps[i] + 0.5, "a", ""])
-                first = len(muts)
-                for q, u in enumerate(range(n - 1, -1, -1)):
-                    muts.append([i, u, "m%d" % u, -1, None, ""])
-            spec = dict(L=bps[-1], nodes=[[0, float(u), -1, (0 if u % 2 else -1), ""] for u in range(n)],
-                        edges=edges, sites=sites, mutations=muts,
-                        individuals=[[0, [], [], ""]], populations=[], migrations=[])
-            mp = model.mutation_parents(spec)
-            for j, m in enumerate(muts):
-                m[3] = mp[j]
-            yield dict(spec=spec)
+            # variant 0: a site in every interval; variant 1 (two intervals): a site in the first
+            # interval only, run with the reduce_to_site_topology option sets
+            for variant in range(nint):
+                sites, muts = [], []
+                for i in range(nint - variant):
+                    sites.append([bps[i] + 0.5, "a", ""])
+                    for u in range(n - 1, -1, -1):
+                        muts.append([i, u, "m%d" % u, -1, None, ""])
+                spec = dict(L=bps[-1], nodes=[[0, float(u), -1, (0 if u % 2 else -1), ""] for u in range(n)],
+                            edges=edges, sites=sites, mutations=muts,
+                            individuals=[[0, [], [], ""]], populations=[], migrations=[])
+                mp = model.mutation_parents(spec)
+                for j, m in enumerate(muts):
+                    m[3] = mp[j]
+                yield dict(spec=spec, reduce_only=bool(variant))
 
 
 SMALL_OPTS = [k for k in range(NOPT)
@@ -556,14 +568,25 @@ def run_small(case, ctx):
     n = len(spec["nodes"])
     ctx.nt(n >= 2)
     tables = gen.build_tables(spec, tskit)
+    pending = None
     for r in range(n + 1):
         for S in itertools.combinations(range(n), r):
             S = list(S)
             if len(S) >= 2 and (len(S) + S[0]) % 2:
                 S = S[::-1]
             for k in SMALL_OPTS:
-                check_simplify(ctx, tskit, spec, tables, S, decode_opts(k), via="tables",
-                               tskit_genotypes=False)
+                if case.get("reduce_only") and not decode_opts(k)["reduce_to_site_topology"]:
+                    continue
+                try:
+                    check_simplify(ctx, tskit, spec, tables, S, decode_opts(k), via="tables",
+                                   tskit_genotypes=False)
+                except PropertyViolation as e:
+                    # an instance of the open finding must not hide the remaining combinations
+                    if classify(case, e) is None:
+                        raise
+                    pending = pending or e
+    if pending is not None:
+        raise pending
 
 
 KEY_ROOT = "simplify.reduce_keep_input_roots_unreferenced_node"
@@ -608,7 +631,8 @@ SUBCHECKS = [
              " an edge with metadata must raise LibraryError",
              floors={"kind:edge_metadata": 0.02, "kind:migrations": 0.02, "kind:duplicate": 0.02}),
     SubCheck("C04.exhaustive_small", run_small, enumerate=enum_small, quick=1, thorough=1,
-             rule="every forest on <=3 nodes x <=2 intervals and 4 nodes x 1 interval (thorough: 4 nodes x 2"
-             " intervals, 5 nodes x 1) x every sample subset x 24 topology option sets, a mutation on"
-             " every node at one site per interval; n>=2"),
+             rule="every forest on <=4 nodes x <=2 intervals (thorough: also 5 nodes x 1 interval) x every"
+             " sample subset x 24 topology option sets, a mutation on every node at one site per interval"
+             " (two intervals: also with a site in the first interval only, reduce_to_site_topology sets); n>=2",
+             classify=classify),
 ]
